@@ -66,7 +66,7 @@ def shipped_noninterference(runner, r, oc, n):
 
 def subsets_case(runner, r, base, i, oc, ereqs, epend, sreqs, spend, wreqs):
     """one c17 template under every subset of assigned tags (n <= 4 tags -> 16 assignments)"""
-    model = genlib.rand_sm_model(r)
+    model = genlib.with_meta(r, genlib.rand_sm_model(r))
     tpl = engtpl.rand_template(r, "c17", nfiles=1, rich_ok=False)
     for f in tpl:
         f["final_newline"] = True
